@@ -157,6 +157,45 @@ class Spline final {
       : Spline(Support<T>::createEmpty(std::move(grid)), {}){};
 
   /*!
+   * @brief Default copy constructor.
+   * @param s Spline to be copied.
+   */
+  Spline(const Spline &s) = default;
+
+  /*!
+   * @brief Default move constructor.
+   * @param s Spline to be moved.
+   */
+  Spline(Spline &&s) = default;
+
+  /*!
+   * Copies first and assigns afterwards: if copying the coefficients throws
+   * (out of memory, throwing copy of T), this spline is left unchanged instead
+   * of ending up with the new support and the old coefficients.
+   *
+   * @brief Copy assignment operator.
+   * @param s Spline to be copied.
+   */
+  Spline &operator=(const Spline &s) {
+    if (this != &s) {
+      Spline copy(s);
+      *this = std::move(copy);
+    }
+    return *this;
+  }
+
+  /*!
+   * @brief Default move assignment operator.
+   * @param s Spline to be moved.
+   */
+  Spline &operator=(Spline &&s) = default;
+
+  /*!
+   * @brief Default destructor.
+   */
+  ~Spline() = default;
+
+  /*!
    * @brief Returns the spline's support.
    * @returns This spline's support.
    */
